@@ -726,12 +726,14 @@ def main(chk):
             if len(rw_samples) < 12:
                 rw_samples.append(x)
         for key, v in res['viol'].items():
-            if key not in viol or len(v['src']) < len(viol[key]['src']):
+            if key not in viol or (len(v['src']), v['src']) < (len(viol[key]['src']), viol[key]['src']):
                 c = viol.get(key, {}).get('count', 0)
                 viol[key] = dict(v)
                 viol[key]['count'] = c + v['count']
             else:
                 viol[key]['count'] += v['count']
+        if done % 500 == 0:
+            chk.log('%d/%d shards, %d cases, %d differ from litref, %d ambiguous' % (done, len(sh), tot['evaluations'], tot['mismatch'], tot['ambiguous']))
         if chk.expired():
             chk.log('deadline: %d of %d shards done' % (done, len(sh)))
             break
